@@ -54,37 +54,7 @@ func c09Rules(p *core.Prog, r *core.Run) {
 	}
 
 	// --- EXIT
-	nExit := 0
-	for b := range m.loopBody {
-		for _, s := range b.Succs {
-			if m.loopBody[s] {
-				continue
-			}
-			nExit++
-			key := fmt.Sprintf("key-loop:exit b%d->b%d", b.Index, s.Index)
-			pos := p.InstrPos(b.Instrs[len(b.Instrs)-1])
-			fs := p.EdgeFacts(b, s)
-			switch {
-			case b == m.loop:
-				r.Check("C09.EXIT", "key-loop:exhausted", true, pos, "loop left because all keys were tried")
-			case hasOpenOK(fs):
-				r.Check("C09.EXIT", "key-loop:after-open", true, pos, "loop left after a successful Open (%s)", lastInstrKind(s))
-			default:
-				why := ""
-				for _, f := range fs {
-					switch {
-					case f.Op == "!=" && f.R.Name == "nil" && f.L.Op == "ext" && f.L.Name == "#1" && f.L.Args[0].Op == "call" && (f.L.Args[0].Name == "hpke.ParseHPKEPrivateKey" || f.L.Args[0].Fn == m.marshalAAD):
-						why = "key or hello cannot be processed: " + f.L.Args[0].Name
-					case f.Op == "==" && f.R.Name == "nil" && f.L.Val == recvV:
-						why = "no HPKE context (empty enc)"
-					}
-				}
-				r.Check("C09.EXIT", key, why != "", pos, "the key search is abandoned %s; guards on this exit: %s",
-					map[bool]string{true: "for an accepted reason: " + why, false: "on a condition that depends on a single candidate key, so another key listed earlier can turn an acceptable hello into a rejected one"}[why != ""], shortStr(core.FactStrings(fs)))
-			}
-		}
-	}
-	r.Floor("C09.EXIT", 3)
+	keyLoopExits(p, r, m, "C09.EXIT")
 
 	// --- LEAVE
 	for i, st := range m.accept {
@@ -258,4 +228,51 @@ func loopCarried(e *core.Expr, header *ssa.BasicBlock) bool {
 		}
 	}
 	return !induction
+}
+
+// keyLoopExits classifies every edge that leaves the candidate-key loop.
+func keyLoopExits(p *core.Prog, r *core.Run, m *echModel, rule string) {
+	openV := m.open.Instr.(ssa.Value)
+	recvV := m.open.Instr.Common().Args[0]
+	hasOpenOK := func(fs []core.Fact) bool {
+		for _, f := range fs {
+			ex, ok := f.L.Val.(*ssa.Extract)
+			if ok && ex.Tuple == openV && ex.Index == 1 && f.Op == "==" && f.R.Name == "nil" {
+				return true
+			}
+		}
+		return false
+	}
+	nExit := 0
+	for b := range m.loopBody {
+		for _, s := range b.Succs {
+			if m.loopBody[s] {
+				continue
+			}
+			nExit++
+			key := fmt.Sprintf("key-loop:exit b%d->b%d", b.Index, s.Index)
+			pos := p.InstrPos(b.Instrs[len(b.Instrs)-1])
+			fs := p.EdgeFacts(b, s)
+			switch {
+			case b == m.loop:
+				r.Check(rule, "key-loop:exhausted", true, pos, "loop left because all keys were tried")
+			case hasOpenOK(fs):
+				r.Check(rule, "key-loop:after-open", true, pos, "loop left after a successful Open (%s)", lastInstrKind(s))
+			default:
+				why := ""
+				for _, f := range fs {
+					switch {
+					case f.Op == "!=" && f.R.Name == "nil" && f.L.Op == "ext" && f.L.Name == "#1" && f.L.Args[0].Op == "call" && (f.L.Args[0].Name == "hpke.ParseHPKEPrivateKey" || f.L.Args[0].Fn == m.marshalAAD):
+						why = "key or hello cannot be processed: " + f.L.Args[0].Name
+					case f.Op == "==" && f.R.Name == "nil" && f.L.Val == recvV:
+						why = "no HPKE context (empty enc)"
+					}
+				}
+				r.Check(rule, key, why != "", pos, "the key search is abandoned %s; guards on this exit: %s",
+					map[bool]string{true: "for an accepted reason: " + why, false: "on a condition that depends on a single candidate key, so another key listed earlier can turn an acceptable hello into a rejected one"}[why != ""], shortStr(core.FactStrings(fs)))
+			}
+		}
+	}
+	r.Floor(rule, 3)
+
 }
